@@ -3,19 +3,27 @@
 (* C17: which malformed calls must be refused.  One configuration is a     *)
 (* (class family, fault) pair; the verdict table transcribes the statement: *)
 (* faults it lists are "refused", calls it declares valid are "answered",  *)
-(* anything else is "either" (never an alarm).                             *)
+(* anything else is "either" (never an alarm).  A call is made in an       *)
+(* option context: which preprocessing steps touch the data before the     *)
+(* fault can be noticed (centring and standardising reduce over the sample *)
+(* dimensions and so happen to reject some faults on their own; with both  *)
+(* off - context "plain" - the refusal has to come from the validation).   *)
 (***************************************************************************)
 EXTENDS Naturals, FiniteSets, TLC
 
-CONSTANTS Families, PFaults
+CONSTANTS Families, PFaults,
+          Contexts     \* subset of {"default", "plain", "std"}
 
-VARIABLES fam, fault, verdict, phase
-vars == <<fam, fault, verdict, phase>>
+VARIABLES fam, fault, ctx, verdict, phase
+vars == <<fam, fault, ctx, verdict, phase>>
 
 PFaultAll == {"nmodesAboveRank", "nmodesZero", "nmodesNegative", "nmodesString", "nmodesFloatAboveOne", "nmodesFloatZero",
               "alphaNegative", "alphaAboveOne", "solverUnknown", "fitNumpyInput", "fitListWithNumpy", "dimUnknown", "dimEmpty",
               "dimNotString", "inverseUnknownMode", "inverseUnknownModeNormalized", "inversePartlyUnknownModes", "inverseExtraDim", "crossSampleCountMismatch", "transformNumpyInput",
-              "weightsNumpy"}
+              "weightsNumpy", "dimPartlyUnknown"}
+
+CtxFaults == {"fitNumpyInput", "fitListWithNumpy", "dimUnknown", "dimEmpty", "dimNotString", "dimPartlyUnknown",
+              "crossSampleCountMismatch", "transformNumpyInput", "weightsNumpy", "nmodesAboveRank"}
 
 IsCross(f) == f \in {"MCA", "CPCCA", "CCA", "RDA"}
 Applies(f, x) ==
@@ -35,7 +43,10 @@ Verdict(f, x) ==
 
 Init == /\ phase = "cfg" /\ verdict = "none"
         /\ fam \in Families /\ fault \in PFaults /\ Applies(fam, fault)
-Decide == /\ phase = "cfg" /\ phase' = "done" /\ verdict' = Verdict(fam, fault) /\ UNCHANGED <<fam, fault>>
+        /\ ctx \in Contexts
+        \* the option contexts concern the preprocessing of fit and transform; construction-time faults are tried once
+        /\ (ctx # "default") => fault \in CtxFaults
+Decide == /\ phase = "cfg" /\ phase' = "done" /\ verdict' = Verdict(fam, fault) /\ UNCHANGED <<fam, fault, ctx>>
 Next == Decide
 Spec == Init /\ [][Next]_vars
 
